@@ -204,7 +204,7 @@ func (b *assignmentBuilder) structFieldAndStructGettersAndFields(lhs bmodel.Node
 			util.IsStructType(rhs.ExprType()) {
 			nestStruct := gmodel.NestStruct{}
 			if util.IsPtr(lhs.ExprType()) {
-				nestStruct.InitExpr = fmt.Sprintf("%v = %v{}", lhs.AssignExpr(), b.imports.TypeName(lhs.ExprType()))
+				nestStruct.InitExpr = fmt.Sprintf("%v = %v{}", lhs.AssignExpr(), b.typeName(lhs.ExprType()))
 			}
 			if rhs.ObjNullable() {
 				nestStruct.NullCheckExpr = rhs.NullCheckExpr()
@@ -484,6 +484,25 @@ func (b *assignmentBuilder) isNameable(t types.Type) bool {
 	return true
 }
 
+// typeName writes the given type the way the generated file has to: without qualifier for the
+// current package and for dot imports, with the name the setup file imports the package under,
+// and for a package that the setup file does not import with the package's own name, which the
+// import optimizer resolves as it does for conversions.
+func (b *assignmentBuilder) typeName(t types.Type) string {
+	return types.TypeString(t, func(pkg *types.Package) string {
+		if !b.isExternalPkg(pkg) {
+			return ""
+		}
+		if name, ok := b.imports.LookupName(pkg.Path()); ok {
+			if name == "." {
+				return ""
+			}
+			return name
+		}
+		return pkg.Name()
+	})
+}
+
 // isExternalPkg returns true if the given package is not the current package.
 func (b *assignmentBuilder) isExternalPkg(pkg *types.Package) bool {
 	if pkg == nil {
@@ -654,14 +673,14 @@ func (b *assignmentBuilder) sliceToSlice(lhs, rhs bmodel.Node) (a gmodel.Assignm
 			a = gmodel.SliceLoopAssignment{
 				LHS: lhs.AssignExpr(),
 				RHS: rhs.AssignExpr(),
-				Typ: "[]" + b.imports.TypeName(lhsElem),
+				Typ: "[]" + b.typeName(lhsElem),
 			}
 		}
 		return
 	}
 
 	if b.opts.Typecast && types.ConvertibleTo(rhsElem, lhsElem) {
-		cast := b.imports.TypeName(lhsElem)
+		cast := b.typeName(lhsElem)
 		if util.IsPtr(lhsElem) {
 			// A conversion to a pointer type must be parenthesized: (*T)(e).
 			cast = "(" + cast + ")"
@@ -669,7 +688,7 @@ func (b *assignmentBuilder) sliceToSlice(lhs, rhs bmodel.Node) (a gmodel.Assignm
 		a = gmodel.SliceTypecastAssignment{
 			LHS:  lhs.AssignExpr(),
 			RHS:  rhs.AssignExpr(),
-			Typ:  "[]" + b.imports.TypeName(lhsElem),
+			Typ:  "[]" + b.typeName(lhsElem),
 			Cast: cast,
 		}
 		return
